@@ -15,7 +15,8 @@ from e2e import fsck as fsckmod
 from apt_mirror.filter import PackageFilter
 from apt_mirror.repository import PackagesParser, SourcesParser
 
-EXPECTED = []
+EXPECTED = ["C09_prefix_exact", "C09_continuation_inert", "C09_filter_spec", "C09_ignore_exact", "C09_blank_flushes", "C09_blank_skips",
+            "C09_final_flush"]
 LEVEL = "proof"
 RULE = ("index = 0-12 stanzas from the Debian control-file grammar: random field order, multi-line fields (Description, "
         "Depends continuation), optional fields, extra fields whose names are prefixes/extensions of the interesting ones "
